@@ -584,7 +584,7 @@ def run_check(pid, tier="quick", base_seed=0, n=None, workers=None, wall_cap=Non
                 "harness_errors": len(harness_errors),
                 "real_components": prop.REAL,
                 "stubbed_components": prop.STUB,
-                "extra": {k: (sorted(v)[:60] if isinstance(v, set) else v) for k, v in sorted(agg["extra"].items())},
+                "extra": {k: ({"distinct": len(v), "sample": sorted(v)[:12]} if isinstance(v, set) else v) for k, v in sorted(agg["extra"].items())},
                 "exhaustive": False,
             },
             "assumptions": prop.ASSUMPTIONS,
